@@ -1,5 +1,6 @@
 import RV.Proofs.ParticlesOps
 import RV.Proofs.ParticlesSlice
+import RV.Proofs.ParticlesSide
 /-
   C14 — particle bookkeeping stays consistent under any add / remove / hash history.
 
@@ -582,6 +583,73 @@ theorem c14_refinement_fails_current :
   · have := congrArg Spec.active h2
     revert this
     decide
+
+
+/-! ### per-particle side arrays of the integrators (RV/Model/ParticlesSide.lean) -/
+
+section SideArrays
+open Side
+
+/-- TRACE, FULL STATEMENT (repaired source, 844bb77): when particle `index` is removed during a step, the in-place
+    re-indexing loop of `reb_simulation_remove_particle` turns the N×N close-encounter matrix `current_Ks` into the
+    (N-1)×(N-1) matrix with row and column `index` deleted — for every N ≥ 1, every index (the last one included),
+    every content, without reading a cell it has already overwritten and without leaving the allocation. -/
+theorem c14_trace_Ks_reindex_is_deleteRowCol {α : Type} (n index : Nat) (ks : List α) (hn : 1 ≤ n)
+    (hlen : ks.length = n * n) :
+    ∃ out, reshuffle true n index ks = some out ∧ out.length = n * n ∧
+      ∀ i j, i < n - 1 → j < n - 1 → out[i * (n - 1) + j]? = deleteRowCol n index ks i j := by
+  simpa only [reshuffle, if_true] using reshuffleNew_spec n index ks hn hlen
+
+/-- the loop as found is FALSE of that statement at `index = N-1` (finding F22; the usual case of a merger: the
+    particle with the higher index goes): N = 4, index = 3, entry (1,0) of the result is old cell 3 = entry (0,3),
+    not old cell 4 = entry (1,0) -/
+theorem c14_trace_Ks_reindex_fails_original :
+    reshuffle false 4 3 (idMatrix 4) = some [0, 1, 2, 3, 4, 5, 6, 7, 8, 9, 10, 11, 12, 13, 14, 15] ∧
+    agreesWithSpec 4 3 (idMatrix 4) [0, 1, 2, 3, 4, 5, 6, 7, 8, 9, 10, 11, 12, 13, 14, 15] = false ∧
+    (reshuffle true 4 3 (idMatrix 4)).map (·.take 9) = some [0, 1, 2, 4, 5, 6, 8, 9, 10] := by decide
+
+/-- … and only there: for every 3 ≤ N ≤ 7 and every index the old loop agrees with the specification exactly when
+    `index < N-1` (checked on the matrix whose entries are all different, which decides it for every matrix; for N = 2
+    the 1×1 result is cell 0 in both loops) -/
+theorem c14_trace_Ks_old_loop_wrong_exactly_at_last_index :
+    ∀ n ∈ List.range 8, ∀ index ∈ List.range n, 3 ≤ n →
+      ((reshuffle false n index (idMatrix n)).map (agreesWithSpec n index (idMatrix n)) = some true ↔ index < n - 1) := by
+  decide +kernel
+
+/-- MERCURIUS, FULL STATEMENT (repaired source, 4316980): with the zero fill, `reb_integrator_mercurius_part1` never reads
+    a `dcrit` cell that has not been written — whatever `safe_mode`, the synchronisation state, the recalculation requests
+    and the number of particles added since the last step — and leaves every cell written and at least N of them. -/
+theorem c14_mercurius_dcrit_read_after_write (m : Merc) (n : Nat) (vals : Nat → Nat) (h : allInit m.dcrit = true) :
+    (part1 true m n vals).2 = false ∧ allInit (part1 true m n vals).1.dcrit = true ∧
+    (part1 true m n vals).1.dcrit.length = max m.dcrit.length n :=
+  part1_zeroFill m n vals h
+
+/-- FALSE without the zero fill (finding F21): `safe_mode = 0`, state not synchronised, one particle added since the last
+    step: the synchronisation evaluates the switching function with the new particle's unwritten `dcrit` -/
+theorem c14_mercurius_dcrit_read_after_write_fails_original :
+    (part1 false ⟨[some 5, some 7], false, false, false, false⟩ 3 (fun i => 10 + i)).2 = true ∧
+    (part1 true ⟨[some 5, some 7], false, false, false, false⟩ 3 (fun i => 10 + i)) =
+      (⟨[some 10, some 11, some 12], false, false, false, true⟩, false) := by decide
+
+/-- WHFast/SABA `p_jh`, JANUS `p_int`, BS `nbody_ode` (exact policy), MERCURIUS, TRACE, IAS15 (grow-only policy),
+    FULL STATEMENT (repaired source, f0ce3d6): whatever adds, removals and remove_all do to N between steps, and whatever
+    the allocation was, every slot a step touches lies inside the allocation the step has just (re)established; arrays
+    whose slot 0 is written unconditionally are not touched when the simulation is empty. -/
+theorem c14_side_arrays_cover_every_touched_slot (k : Kind) (hk : k.slot0 = true → k.skipEmpty = true)
+    (ops : List SideOp) (s : SideState) : (sideRun k s ops).2 = true :=
+  sideRun_ok k hk ops s
+
+/-- after a step the allocation covers all N particles (equals N for the exact policy) -/
+theorem c14_side_arrays_alloc_ge_N (k : Kind) (hk : k.slot0 = true → k.skipEmpty = true) (s : SideState) :
+    (k.skipEmpty = true ∧ s.n = 0) ∨ s.n ≤ (sideStep k s .step).1.alloc :=
+  (sideStep_ok k hk s .step).2 rfl
+
+/-- FALSE of WHFast/SABA before f0ce3d6 (finding F23): all particles removed, step: slot 0 of an empty allocation -/
+theorem c14_side_arrays_fails_original :
+    (sideRun ⟨.exact, true, false⟩ ⟨0, 0⟩ [.setN 2, .step, .setN 0, .step]).2 = false ∧
+    (sideRun ⟨.exact, true, true⟩ ⟨0, 0⟩ [.setN 2, .step, .setN 0, .step]).2 = true := by decide
+
+end SideArrays
 
 /-! ### the Python container's integer keys and slices -/
 
